@@ -141,6 +141,13 @@ func oracleC10(r *Run, w *cliWorld, o *stubOrigin, requireAll bool) {
 	if w.waitSeen {
 		end = w.waitAt
 	}
+	// when did the client deliver its first leading unit (the pacing origin)?
+	leadFirstAt := time.Duration(-1)
+	for i, m := range model {
+		if m.st == lead && m.ti == li && len(deliveries[i]) > 0 {
+			leadFirstAt = deliveries[i][0].at
+		}
+	}
 	for i, m := range model {
 		st, t := m.st, m.t
 		// origin of this track's clock
@@ -164,10 +171,20 @@ func oracleC10(r *Run, w *cliWorld, o *stubOrigin, requireAll bool) {
 		var want []exp
 		for _, nr := range dl[st] {
 			_, sg := st.classify(nr)
-			due := nr.deliveredAt+3*sg.dur+5*time.Second <= end
 			for k := 0; k < sg.count[m.ti]; k++ {
 				u := t.units[sg.first[m.ti]+k]
-				e := exp{u: u, dts: u.dts - origin, pts: u.pts - origin, due: due, seg: sg}
+				e := exp{u: u, dts: u.dts - origin, pts: u.pts - origin, seg: sg}
+				// samples are paced: a unit is due at the time of the first leading delivery plus its own decode
+				// time, provided its segment had been downloaded by then (generous slack)
+				rate := int64(t.scale)
+				if st.container == "ts" {
+					rate = 90000
+				}
+				playAt := leadFirstAt + time.Duration(e.dts*int64(time.Second)/rate)
+				if playAt < nr.deliveredAt {
+					playAt = nr.deliveredAt
+				}
+				e.due = leadFirstAt >= 0 && playAt+sg.dur+5*time.Second <= end
 				if e.pts < -tol {
 					continue // precedes the origin: dropped
 				}
